@@ -776,16 +776,27 @@ func (h *handler) addHandlerContext(messages ...*Message) {
 
 func (h *handler) handleClose(ctx context.Context) {
 	verifhook.At("router.handleclose.enter", h.name, "")
-	select {
-	case <-h.routersCloseCh:
+	closeSubscriber := func() {
 		// for backward compatibility we are closing subscriber
 		h.logger.Debug("Waiting for subscriber to close", nil)
 		if err := h.subscriber.Close(); err != nil {
 			h.logger.Error("Failed to close subscriber", err, nil)
 		}
 		h.logger.Debug("Subscriber closed", nil)
+	}
+
+	select {
+	case <-h.routersCloseCh:
+		closeSubscriber()
 	case <-ctx.Done():
-		// we are closing subscriber just when entire router is closed
+		// we are closing subscriber just when entire router is closed.
+		// Run cancels the context right after the router started closing, so both channels may be
+		// ready at once: the subscriber must be closed whenever the router is closing.
+		select {
+		case <-h.routersCloseCh:
+			closeSubscriber()
+		default:
+		}
 	}
 	h.stopFn()
 }
